@@ -12,8 +12,11 @@ What is proved here, for the model compiler (`Model/Compile.lean`) and the model
 * a call is never pre-evaluated when it mentions a name that is not bound at compile time (a variable, an
   unknown function) or a clock function (`unbound_never_folded`, `clock_never_folded`), and `now()` /
   `timestamp()` compile to a run-time `CALL` (`now_stays_a_call`, `timestamp0_stays_a_call`).
-The end-to-end statement (`compile e` and the unfolded code of `e` evaluate alike for *every* tree) is not
-proved as one theorem; it is covered by the metamorphic correspondence run of the check (facet C09).
+The end-to-end statement (a literal for a variable is invisible: the folded and the unfolded program evaluate
+alike) is a theorem on the fragment of the language for which compiler correctness is proved —
+`Theorems/C09Sem.lean` (`subst_evalSpec`, `literal_for_variable_invisible`, …); for the other trees (calls,
+macros, index, member access, map literals, f-strings) it is covered by the metamorphic correspondence run of
+the check (facet C09).
 -/
 namespace Rscel
 namespace C09
